@@ -216,8 +216,12 @@ Tabular(a, R) == R.o.mode = "pretty" /\ R.o.al /\ Eligible(a) /\ TabOf(a.v, R.o.
 \* R-align (strict where explicit): a regular table whose aligned rows fit under every reading MUST be written as the table
 \*          ("attempts to align": nothing prevents it there); otherwise table or ordinary broken form are both admissible.
 MustTable(it, c, R) == Tabular(it.n, R) /\ TableMaxLine(it.n, it.lvl, R) < R.o.w
-\* the table is inadmissible when a row line overflows although an ordinary broken rendering would stay within the width
-TableOverflow(it, c, R) == TableMaxLine(it.n, it.lvl, R) - 1 > R.o.w /\ BrokenFits(it, c, R)
+\* the table is inadmissible when a row overflows although an ordinary broken rendering would stay within the width.
+\* ALLOW: the row is measured from the indentation of the LIST, not of the row, and without its comma: TestWriteAlignArrayStrings
+\* (Width 30) expects the 31-character row `  ["alpha", "bravo", "charlie"],` - a row may exceed the width by one indentation step
+\* plus the comma; such rows are counted as model drift (drift_aligned_row_beyond_width)
+TableRowsWidest(a, lvl, R) == TableMaxLine(a, lvl, R) - R.step - (IF R.o.sen THEN 0 ELSE 1)
+TableOverflow(it, c, R) == TableRowsWidest(it.n, it.lvl, R) > R.o.w /\ BrokenFits(it, c, R)
 
 \* ================================================================= work items and moves
 NodeIt(n, lvl, t, ps) == [k |-> "node", n |-> n, lvl |-> lvl, t |-> t, ps |-> ps]
@@ -317,7 +321,7 @@ AccNode(it, c, R, x, p) ==
         LET blk == IF Match(x, p, TableBlock(a, it.lvl, R, TRUE)) THEN TableBlock(a, it.lvl, R, TRUE) ELSE TableBlock(a, it.lvl, R, FALSE) IN
         IF MustFlat(it, c, R) THEN Dev("broken-though-fits", it, c, Size(a), R)
         ELSE IF TableOverflow(it, c, R) THEN Dev("aligned-row-overflows-though-breakable", it, (it.lvl + 1) * R.step, TableMaxLine(a, it.lvl, R) - (it.lvl + 1) * R.step - 1, R)
-        ELSE Move(blk, <<>>, "table", FALSE)
+        ELSE Move(blk, <<>>, "table", TableMaxLine(a, it.lvl, R) - 1 > R.o.w)
       ELSE IF MustFlat(it, c, R) THEN Dev("broken-though-fits", it, c, Size(a), R)
       ELSE IF MustTable(it, c, R) THEN Dev("rows-not-aligned", it, c, Size(a), R)
       ELSE Move(<<OpenB(a)>>, BrokenPush(it, R), "broken", FALSE)
